@@ -205,7 +205,7 @@ def rule_n5(repo):
     behind the test that makes the instantiated pattern equal to the target: a bound schematic variable
     and a rigid type variable behind an equality test with the target, a constructor behind the tests that
     the target is the same constructor, and through the recursion over the arguments."""
-    res = RuleResult('C09.N5', 'Type.match_incr completes, for each kind of pattern type, only behind the equality / constructor tests against the target', floor=4)
+    res = RuleResult('C09.N5', 'Type.match_incr completes, for each kind of pattern type, only behind the equality / constructor tests against the target', floor=5)
     f = repo.func(TYPE, 'Type.match_incr')
     cfg = cfg_of(f.node)
     n5flow = flow_of(f.node)
@@ -253,6 +253,16 @@ def rule_n5(repo):
     res.add('%s :: Type.match_incr :: stvar-bound :: equal-to-binding' % TYPE, ok,
             'a bound schematic type variable matches only its binding' if ok else
             'a schematic type variable that already has a binding can match a different type', '%s:%d' % (TYPE, bound[0].lineno))
+    # schematic variable without a binding: the binding is recorded - also ?'a := ?'a, which is what keeps a later ?'a from
+    # being matched with something else (the table is the memory of the incremental matcher)
+    other = 'false' if lab == 'true' else 'true'
+    ustart = [b for b, l in bound[0].succ if l == other][0]
+    stores = [n for n in cfg.stmt_nodes(ast.Assign) if any(isinstance(tg, ast.Subscript) and is_name(tg.value, inst) for tg in n.ast.targets)]
+    ok = bool(stores) and not completes_without(ustart, nodes=stores)
+    res.add('%s :: Type.match_incr :: stvar-unbound :: recorded' % TYPE, ok,
+            'an unbound schematic type variable is bound on every path' if ok else
+            'a schematic type variable without a binding can match without the binding being recorded: a later occurrence of the same '
+            'variable is then free to match another type (?\'a => ?\'a matches ?\'a => nat)', '%s:%d' % (TYPE, bound[0].lineno))
     # constructor
     t = kind_test('is_tconst')
     start = [b for b, l in t.succ if l == 'true'][0]
@@ -354,5 +364,38 @@ def rule_n9(repo):
     return res
 
 
+def rule_n10(repo):
+    """The matcher extends the instantiation it is given: what the caller already fixed - term bindings *and* type
+    bindings - stays fixed.  The parameter may be replaced by a new, empty instantiation only where it is None; a test
+    like `len(inst) == 0` sees the term bindings only, and a seed that fixes ?'a := nat would be thrown away."""
+    from ..astutil import comparison_holding
+    res = RuleResult('C09.N10', 'the instantiation passed to the matcher is replaced by an empty one only when none was passed', floor=2)
+    m = repo.module(MATCHER)
+    for f in m.all_funcs:
+        if f.parent is not None:
+            continue
+        a = f.node.args
+        defaults = dict(zip([x.arg for x in a.args][len(a.args) - len(a.defaults):], a.defaults))
+        for p, d in defaults.items():
+            if not (isinstance(d, ast.Constant) and d.value is None):
+                continue
+            cfg = cfg_of(f.node)
+            fresh = [n for n in cfg.stmt_nodes(ast.Assign) if any(is_name(t, p) for t in n.ast.targets) and
+                     not any(is_name(x, p) for x in ast.walk(n.ast.value))]
+            if not fresh:
+                continue
+
+            def none(e, pol, p=p):
+                return any(op is ast.Is and is_name(x, p) and isinstance(y, ast.Constant) and y.value is None for op, x, y in comparison_holding(e, pol))
+            edges = cfg.establishing_edges(none)
+            bad = [n for n in fresh if cfg.path_avoiding(n, skip_edges=edges) is not None]
+            res.add('%s :: %s :: seed(%s)' % (MATCHER, f.qualname, p), not bad,
+                    '`%s` is replaced only where it is None' % p if not bad else
+                    'line %d `%s` is reached with an instantiation the caller passed: what it fixed (its type bindings, if the test looked at the '
+                    'term bindings only) is dropped, and the match can contradict it' % (bad[0].lineno, src(bad[0].ast, 40)), '%s:%d' % (MATCHER, (bad or fresh)[0].lineno))
+    return res
+
+
 def rules(repo):
-    return [rule_n1(repo), rule_n2(repo), rule_n3(repo), rule_n4(repo), rule_n5(repo), rule_n6(repo), rule_n7(repo), rule_n8(repo), rule_n9(repo)]
+    return [rule_n1(repo), rule_n2(repo), rule_n3(repo), rule_n4(repo), rule_n5(repo), rule_n6(repo), rule_n7(repo), rule_n8(repo), rule_n9(repo),
+            rule_n10(repo)]
